@@ -117,6 +117,24 @@ func c20CheckType(c c20Type) engine.Result {
 					}
 				}
 			}
+			// removal lists at least as long as the stream list that name ONE stream of this table (a list of
+			// unwanted PIDs shared between programs, a repeated PID): the other two keep answering
+			for rm := 0; rm < 3; rm++ {
+				for _, list := range [][]int{{pidAt(rm), 0x99, 0x9A}, {0x99, 0x9A, 0x9B, pidAt(rm)}, {pidAt(rm), pidAt(rm), pidAt(rm)}, {0x99, 0x9A, 0x9B, 0x9C}} {
+					pm3, err := psi.NewPMT(payload)
+					if err != nil {
+						break
+					}
+					pm3.RemoveElementaryStreams(list)
+					for i := 0; i < 3; i++ {
+						want := (i != rm || list[0] == 0x99 && list[3] == 0x9C) && c20Lags[sec.Streams[i].Type]
+						if got := pm3.IsPidForStreamWherePresentationLagsEbp(pidAt(i)); got != want {
+							res.Failf("PMT|IsPidForStreamWherePresentationLagsEbp-after-removal-by-a-long-list", "types %#x,%#x,%#x, RemoveElementaryStreams(%v): pid %#x reports %v want %v",
+								sec.Streams[0].Type, sec.Streams[1].Type, sec.Streams[2].Type, list, pidAt(i), got, want)
+						}
+					}
+				}
+			}
 			// one PID list object used for removals on two decoded tables in a row (the list is the caller's)
 			{
 				list := []int{pidAt(0), pidAt(1)}
